@@ -71,6 +71,16 @@ type c10Case struct {
 	Labels []string    `json:"labels,omitempty"`
 }
 
+// c10EntryPath: entries sit in the root directory, except those that include by relative name.
+func c10EntryPath(i int, kind string) string {
+	if kind == "relinclude" {
+		return fmt.Sprintf("/dir%d/t%d.jet", i, i)
+	}
+	return fmt.Sprintf("/t%d.jet", i)
+}
+
+func c10EntryOf(kinds []string, i int) string { return c10EntryPath(i, kinds[i]) }
+
 func genC10(t *rapid.T) c10Case {
 	g := &c13Gen{t: t, labels: map[string]bool{}}
 	g.p = &mj.Program{Vars: map[string]mj.Recipe{}}
@@ -81,8 +91,8 @@ func genC10(t *rapid.T) c10Case {
 	c := c10Case{Prog: g.p}
 	n := rapid.IntRange(3, 8).Draw(t, "ntemplates")
 	for i := 0; i < n; i++ {
-		path := fmt.Sprintf("/t%d.jet", i)
 		kind := rapid.SampledFrom([]string{"ordinary", "failing", "failing", "probing", "probing", "embprobe", "returning", "nested-ranges", "trying", "publishing", "relinclude", "positional"}).Draw(t, "kind")
+		path := c10EntryPath(i, kind)
 		var body []*mj.Node
 		rt := mj.Print(mj.Call("rtprobe"))
 		switch kind {
@@ -108,11 +118,13 @@ func genC10(t *rapid.T) c10Case {
 				{K: "try", Body: []*mj.Node{mj.Text("(inner "), mj.Print(mj.Var("xs")), mj.Text(")")}}}, HasCatch: rapid.Bool().Draw(t, "tryCatch"), Catch: []*mj.Node{mj.Text("(unreachable)")}}, mj.Text("after-try")}
 		case "relinclude":
 			// a page in a directory of its own that includes "row.jet": the same spelling means another file for every page
+			// (the entry itself lives in that directory: see c10EntryPath)
 			dir := fmt.Sprintf("/dir%d", i)
-			g.p.Files = append(g.p.Files,
-				&mj.File{Path: dir + "/page.jet", Body: []*mj.Node{mj.Text("page" + dir + ":"), {K: "include", E: mj.Str("row.jet")}, {K: "include", E: mj.Str("./row.jet")}}},
-				&mj.File{Path: dir + "/row.jet", Body: []*mj.Node{mj.Text("ROW-OF-" + dir)}})
-			body = []*mj.Node{{K: "include", E: mj.Str(dir + "/page.jet")}}
+			g.p.Files = append(g.p.Files, &mj.File{Path: dir + "/row.jet", Body: []*mj.Node{mj.Text("ROW-OF-" + dir)}})
+			body = []*mj.Node{mj.Text("page" + dir + ":"), {K: "include", E: mj.Str("row.jet")}}
+			if rapid.Bool().Draw(t, "relIncludeTwice") {
+				body = append(body, &mj.Node{K: "range", E: mj.Call("ints", mj.Num(0), mj.Num(2)), Body: []*mj.Node{{K: "include", E: mj.Str("./row.jet")}}})
+			}
 		case "positional":
 			// pages that share a layout whose yield passes its arguments by position and override the yielded
 			// block with parameters of their own (what executing one page does to the layout must not show in another)
@@ -171,7 +183,7 @@ func genC10(t *rapid.T) c10Case {
 	ncalls := rapid.IntRange(2, 15).Draw(t, "ncalls")
 	for i := 0; i < ncalls; i++ {
 		c.Calls = append(c.Calls, c10Call{
-			Entry: fmt.Sprintf("/t%d.jet", rapid.IntRange(0, n-1).Draw(t, "entry")),
+			Entry: c10EntryOf(c.Kinds, rapid.IntRange(0, n-1).Draw(t, "entry")),
 			Data:  rapid.IntRange(0, 4).Draw(t, "data"),
 			Vars:  rapid.IntRange(0, 1).Draw(t, "vars"),
 			// sometimes the destination fails after a few bytes (a connection that breaks mid-response)
@@ -356,7 +368,7 @@ func judgeC10(c c10Case) (v core.Verdict) {
 
 	kindOf := map[string]string{}
 	for i, k := range c.Kinds {
-		kindOf[fmt.Sprintf("/t%d.jet", i)] = k
+		kindOf[c10EntryPath(i, k)] = k
 	}
 	reuse, failThenProbe := false, false
 	for i := 1; i < len(c.Calls); i++ {
